@@ -612,6 +612,37 @@ package generator
 //@   ensures [C10,C18] declaration-errors-propagate: call_failed("(*schemaGenerator).generateDeclaredType") ==> result1 != nil
 //@   ensures [C10] scope-restored: len(g.inScope) == 0
 
+// ---- following a reference into ANOTHER document ---------------------------------
+// Scenario: the loader knows one other document (id "other.ID", a typed definition
+// X, an untyped root); no mapping, so it goes to the default file and package; the
+// referring document's own output is in the default package too, or (@ownpkg) in
+// package p1. The file system (QualifiedFileName) and the generation of the other
+// document's types (addFile, generateDeclaredType) are assumed call-site
+// contracts; what they are CALLED with, and what is done with their results, is
+// checked here.
+//@ func (*Generator).addFile@callsite
+//@   trusted generates the other document's types (generateRootType): succeeds or fails
+//@   shape results = (nil) | (error)
+//@   assigns nothing
+//@ func (*schemaGenerator).generateReferencedType@other-file
+//@   props C10 C20 C18 C01
+//@   option verify-only
+//@   option inline (*schemaGenerator).extractRefNames (*schemaGenerator).detectCycle (*Generator).findOutputFileForSchemaID (*Generator).beginOutput newSchemaGenerator (*Generator).getRootTypeName
+//@   option shape-zero t.
+//@   option noframe
+//@   shape g = sgen(@registered) | sgen(@registered,@ownpkg)
+//@   shape t = new
+//@   shape t.Ref = "other.json#/$defs/X" | "other.json" | "other.json#/$defs/Missing"
+//@   ensures [C10,C18] load-errors-propagate: call_failed("Loader.Load") ==> result1 != nil
+//@   ensures [C10] the-file-named-by-the-reference-is-loaded: call_arg("Loader.Load", 1) == "other.json" && call_arg("Loader.Load", 2) == g.schemaFileName
+//@   ensures [C10,C18] unknown-definition-fails: t.Ref == "other.json#/$defs/Missing" ==> result1 != nil
+//@   ensures [C10] the-definition-of-the-other-document-is-declared: t.Ref == "other.json#/$defs/X" && !call_failed("Loader.Load") && result1 == nil ==> call_arg("(*schemaGenerator).generateDeclaredType", 1) == other_schema().Definitions["X"] && call_arg("(*schemaGenerator).generateDeclaredType", 2).stack[0] == identifierize_of("X")
+//@   ensures [C10,C20] a-whole-document-reference-declares-its-root: t.Ref == "other.json" && result1 == nil ==> call_arg("(*schemaGenerator).generateDeclaredType", 1) == other_schema().ObjectAsType && len(other_schema().ObjectAsType.Type) == 1 && other_schema().ObjectAsType.Type[0] == "object"
+//@   ensures [C10,C14] the-root-is-named-after-its-file: t.Ref == "other.json" && result1 == nil ==> call_arg("(*schemaGenerator).generateDeclaredType", 2).stack[0] == pure_result("(*Caser).IdentifierFromFileName", "other.json")
+//@   ensures [C20] declared-by-a-generator-for-the-other-document: result1 == nil ==> call_arg("(*schemaGenerator).generateDeclaredType", 0).schema == other_schema() && out_pkg(call_arg("(*schemaGenerator).generateDeclaredType", 0).output) == "x/defpkg" && out_file(call_arg("(*schemaGenerator).generateDeclaredType", 0).output) == "default.go"
+//@   ensures [C20,C10] same-package-reference-is-unqualified: result1 == nil && g.output.file.Package.QualifiedName == "x/defpkg" ==> result0 == call_result("(*schemaGenerator).generateDeclaredType", 0) && len(g.output.file.Package.Imports) == 0
+//@   ensures [C20,C01] cross-package-reference-is-qualified-and-imported: result1 == nil && g.output.file.Package.QualifiedName == "p1" ==> dyn(result0) == "*codegen.NamedType" && result0.Package.QualifiedName == "x/defpkg" && result0.Decl == call_result("(*schemaGenerator).generateDeclaredType", 0).Decl && len(g.output.file.Package.Imports) == 1 && last(g.output.file.Package.Imports).QualifiedName == "x/defpkg" && last(g.output.file.Package.Imports).Name == "defpkg"
+
 // A reference node that is met again while it is being followed is a cycle: the
 // result is a pointer to the declared type (a struct cannot contain itself), and
 // the node stays marked for the outer visit.
